@@ -237,4 +237,38 @@ def run(prog: Program, rep: Report, tier: str):
     rep.decide(ok, "G8.label-one-hot", oh, "num_classes", "one_hot(y, num_classes=n_classes)",
                "to_one_hot_vector does not pass n_classes on: the vector length depends on the label value", clause="C11.4",
                nontrivial=False)
+    # the encoded label is mixed in place: it must be the caller's own tensor
+    rep.rule("G8.label-fresh", "to_one_hot_vector / to_one_hot_matrix return a tensor built in the call: no return value is (an element "
+             "or row of) a module-level object or of the result of a memoised function (lru_cache / cache) - KDMixWrapper mixes the "
+             "label in place (mul_ / add_), which would rewrite the shared table for every later sample of that class")
+    om = oh.module
+    memo = {st.name for st in om.tree.body if isinstance(st, ast.FunctionDef) and any(
+        any(k in ast.unparse(d) for k in ("lru_cache", "cache", "memo")) for d in st.decorator_list)}
+    mod_vars = {t.id for st in om.tree.body if isinstance(st, (ast.Assign, ast.AnnAssign))
+                for t in (st.targets if isinstance(st, ast.Assign) else [st.target]) if isinstance(t, ast.Name)}
+    for fname in ("to_one_hot_vector", "to_one_hot_matrix"):
+        f = prog.func("kappadata/utils/one_hot.py", fname, required=False)
+        if f is None:
+            continue
+        fa_ = fa_of(prog, f)
+        bad = []
+        for n_, _t in fa_.returns():
+            rv_ = fa_.ret_ast(n_)[0]
+            if rv_ is None:
+                continue
+            ex = fa_.expand(rv_, n_)
+            # follow single definitions one step further for names defined by calls (x = _rows(n)[y])
+            srcs = [ex] + [fa_.cfg.def_value(d, y.id) for y in ast.walk(ex) if isinstance(y, ast.Name)
+                           for d in fa_.cfg.reaching().get(n_, {}).get(y.id, set()) if fa_.cfg.nodes[d].kind != "entry"]
+            for e in srcs:
+                if e is None:
+                    continue
+                for y in ast.walk(e):
+                    if isinstance(y, ast.Call) and isinstance(y.func, ast.Name) and y.func.id in memo:
+                        bad.append((fa_.line(n_), f"the result of the memoised {y.func.id}()"))
+                    if isinstance(y, ast.Name) and y.id in mod_vars:
+                        bad.append((fa_.line(n_), f"the module-level object {y.id}"))
+        rep.decide(not bad, "G8.label-fresh", f, "returns-own-tensor", "every return builds its tensor in the call",
+                   "; ".join(f"a return (line {ln}) hands out part of {w}" for ln, w in sorted(set(bad))) + ": the in-place label "
+                   "mix of KDMixWrapper writes into that shared object", line=bad[0][0] if bad else f.node.lineno, clause="C11.4")
     names.check(prog, rep, FILES, clause="C11.G1", floor=6)
